@@ -228,7 +228,7 @@ func runC19(c *Ctx) {
 		bad = ""
 		for _, w := range fieldWrites(c.P, "filterlist", "RuleStorage", "cache") {
 			switch {
-			case w.Kind == "mapupdate" && w.Fn == rr || w.Fn.Parent() == rr:
+			case w.Kind == "mapupdate" && inGroupOf(c.P, w.Fn, rr):
 			case w.Kind == "store" && w.Fn.Name() == "NewRuleStorage":
 			default:
 				bad = fmt.Sprintf("%s: %s writes the rule cache (%s): rules retrieved before a fault are no longer served", c.P.Pos(w.Instr.Pos()), shortFn(w.Fn), w.Kind)
